@@ -119,25 +119,22 @@ def optLoop (p : Bytes) : Nat → Sector → Res Sector
       optLoop p fuel { s with ednsCount := s.ednsCount + 1 }
     else pure s
 
+/-- `parse_opt`. The five loads happen in source order; the fields they set are not read again
+before the end, so the record update is done once (an early error discards the state anyway). -/
 def parseOpt (p : Bytes) (s : Sector) : Res Sector := do
   failIf s.ednsEnd.isSome .invalidPacket
   let extRcode ← u8Load p s DNS_OPT_RR_EXT_RCODE_OFFSET
-  let s := { s with extRcode := some extRcode }
   let ver ← u8Load p s DNS_OPT_RR_EDNS_VERSION_OFFSET
-  let s := { s with ednsVersion := some ver }
   let mp ← be16Load p s DNS_OPT_RR_MAX_PAYLOAD_OFFSET
-  let s := { s with maxPayload := mp }
   let fl ← be16Load p s DNS_OPT_RR_EDNS_EXT_FLAGS_OFFSET
-  let s := { s with extFlags := some fl }
   let ednsLen ← be16Load p s DNS_OPT_RR_RDLEN_OFFSET
-  let (s, _) ← incrementOffset p s DNS_OPT_RR_HEADER_SIZE
-  let s := { s with ednsStart := some s.offset }
-  ensureRemainingLen p s ednsLen
-  let s := { s with ednsEnd := some (s.offset + ednsLen), ednsCount := 0 }
-  optLoop p (ednsLen / DNS_EDNS_RR_HEADER_SIZE + 2) s
+  let (s1, _) ← incrementOffset p s DNS_OPT_RR_HEADER_SIZE
+  ensureRemainingLen p s1 ednsLen
+  optLoop p (ednsLen / DNS_EDNS_RR_HEADER_SIZE + 2)
+    { s1 with extRcode := some extRcode, ednsVersion := some ver, maxPayload := mp, extFlags := some fl,
+              ednsStart := some s1.offset, ednsEnd := some (s1.offset + ednsLen), ednsCount := 0 }
 
-/-- rdata made of one compressed name starting `pre` bytes into the rdata and followed by
-`post` fixed bytes (NS/CNAME/PTR: 0,0; MX: 2,0) -/
+/-- `parse_rr` -/
 def parseRR (p : Bytes) (s : Sector) (sec : Section) : Res Sector := do
   let rrStart := s.offset
   let s ← skipName p s
